@@ -267,6 +267,8 @@ STATEMENTS = {
     'agg': ('SELECT account, sum(position) AS s, count(*) AS n, first(date) AS f, last(narration) AS l, min(number) AS mn, max(number) AS mx GROUP BY account ORDER BY account', None),
     'agg-year': ('SELECT year, month, sum(cost(position)) AS c, count(number) AS n GROUP BY year, month ORDER BY 1, 2', None),
     'subq-from': ('SELECT a, sum(n) AS t FROM (SELECT account AS a, number AS n, balance AS b FROM #postings WHERE number > 0) GROUP BY a ORDER BY a', None),
+    'subq-from2': ('SELECT d, m, a FROM (SELECT date AS d, number AS m, account AS a, year AS n FROM #postings WHERE number < 0) WHERE a ~ "Assets|Income" AND n > 2000 ORDER BY d, m, a', None),
+    'subq-from3': ('SELECT n, a FROM (SELECT a, n FROM (SELECT account AS n, number AS a FROM #postings WHERE number > 0)) ORDER BY n, a', None),
     'subq-in': ('SELECT date, account, balance WHERE account IN (SELECT account FROM #postings WHERE NOT empty(balance) AND number > 50) ORDER BY date, account', None),
     'param-a': ('SELECT date, account, number WHERE number > %s AND currency = %s ORDER BY date, account, number', [10, 'USD']),
     'param-b': ('SELECT date, account, number WHERE number > %s AND currency = %s ORDER BY date, account, number', [1000, 'EUR']),
@@ -302,7 +304,7 @@ STATEMENTS = {
 PAIRS = [('bal2', 'bal1'), ('bal2', 'bal3'), ('bal3', 'subq-in'), ('units-bal', 'journal'), ('agg', 'agg-year'), ('agg', 'agg'), ('subq-from', 'subq-in'),
          ('param-a', 'param-b'), ('named', 'param-a'), ('open-close', 'close'), ('open-close', 'bal2'), ('balances', 'journal'), ('distinct', 'entries'),
          ('pivot', 'agg'), ('bal2', 'bal2'), ('close', 'bal1'), ('open-close', 'open-close-rows'), ('close', 'close-count'), ('open-close', 'open-close'), ('div', 'div-agg'), ('div-agg', 'bal2'),
-         ('ctx-funcs', 'ctx-funcs'), ('ctx-funcs', 'ctx-agg'), ('balances', 'balances'), ('ctx-dated', 'ctx-dated'), ('ctx-dated', 'ctx-funcs'),
+         ('subq-from', 'subq-from2'), ('subq-from2', 'subq-from3'), ('ctx-funcs', 'ctx-funcs'), ('ctx-funcs', 'ctx-agg'), ('balances', 'balances'), ('ctx-dated', 'ctx-dated'), ('ctx-dated', 'ctx-funcs'),
          ('journal', 'journal'), ('journal', 'journal-cost'), ('prices', 'prices-agg'), ('txns', 'txns'), ('notes-events', 'prices'), ('accounts', 'ctx-funcs'),
          ('bad-params', 'param-b'), ('bad-params2', 'named'), ('runtime-fail', 'bal2'), ('bad-column', 'agg'), ('bad-params', 'bad-params2')]
 
